@@ -122,7 +122,7 @@ def handleL5 (j : Json) : Except String Json := do
       | y :: ys => if x.1 < y.1 || (x.1 == y.1 && x.2.1 ≤ y.2.1) then x :: y :: ys else y :: ins ys
     ins acc) []
   let dsegs := segs != osegs
-  let dpairs := sortP mpairs != sortP opairs
+  let dpairs := !(gb oj "noStats") && sortP mpairs != sortP opairs
   -- attribution: a wrong statement executed is C09's, a missing/extra close or cache entry C11's
   let callsOf (l : List Segment) := l.foldl (fun acc s => acc ++ s.calls) []
   let aff : List String :=
@@ -140,7 +140,8 @@ def handleL5 (j : Json) : Except String Json := do
      ("diff", Json.str (if dsegs then "driver log segments differ" else if dpairs then "cache content differs" else "")),
      ("c09", Json.bool (holdsC09 execs)),
      ("c10", Json.bool (holdsC10 execs (gn oj "closedErrs") && closedUse == 0)),
-     ("c11", Json.bool (holdsC11 doubleClose openStmts opairs.length 1 (gb oj "allDropped") opairs.length))])
+     ("c11", Json.bool (if gb oj "noStats" then doubleClose == 0 && (!(gb oj "allDropped") || openStmts == 0)
+        else holdsC11 doubleClose openStmts opairs.length 1 (gb oj "allDropped") opairs.length))])
 
 open Sqlair.Cache in
 def handleL5c (j : Json) : Except String Json := do
